@@ -358,6 +358,21 @@ func Harness_Act(n int, layout int, street int, limit int, cur int, op int) {
 		vAssert(vImplies(under, meS.StackSize == 0), "C12.undersized-raise-only-as-allin")
 		vAssert(x >= pre.cw, "C12.raise-below-wager-refused")
 	}
+	// the minimum raise is the size of the last bet or raise that was at least the minimum in force: an
+	// action that lifts the wager to match by less (a short all-in, a call) leaves it alone
+	inc := st.CurrentWager - pre.cw
+	grown := vAnd(inc > 0, inc >= pre.prs)
+	// (Bet always records the requested amount as the minimum, also above the stack and in pre-states
+	// where a minimum is already in force with no wager standing; the statement speaks of bets below
+	// the stack only, so a bet is held to exactly that)
+	if op == 3 || (op == 5 && vFork(x != pre.cw)) { // a raise to the standing wager is carried out as a call
+		vAssert(vAnd(vImplies(grown, st.PreviousRaiseSize == inc), vImplies(!grown, st.PreviousRaiseSize == pre.prs)), "C12.minimum-raise-changes-only-by-a-bet-or-raise-of-at-least-its-size")
+	} else if op != 4 {
+		// fold, check, call (also the call that completes a short big blind), pass: never
+		vAssert(st.PreviousRaiseSize == pre.prs, "C12.minimum-raise-untouched-by-fold-check-call-pass")
+	} else {
+		vAssert(vImplies(vAnd(x > 0, x < pre.stack[cur]), st.PreviousRaiseSize == x), "C12.bet-size-becomes-the-minimum-raise")
+	}
 	// ---- what comes next (C04 order, C05 closure, C06 wait point) ----
 	if st.CurrentEvent == "RoundStarted" {
 		nxt := (cur + 1) % n
